@@ -10,7 +10,7 @@ CONSTANT DIAG            \* TRUE: print every mismatch and keep going (replay/di
 VARIABLE l
 Tr == ndJsonDeserialize(IOEnv.TRACE)
 
-Chk(name, cond, info) == cond \/ (DIAG /\ PrintT(<<"MISMATCH", name, l, info>>))
+Chk(name, cond, info) == IF cond THEN TRUE ELSE (DIAG /\ PrintT(<<"MISMATCH", name, l, info>>))
 Ev(e) == l <= Len(Tr) /\ Tr[l].e = e /\ l' = l + 1
 
 MvSet(lst) == { MvOfSeq(lst[i]) : i \in 1..Len(lst) }
